@@ -13,8 +13,19 @@
 using namespace ref;
 
 static const char* const COMP[4]={"x","y","z","w"};
-static void SWEEP(const std::string& label,u64 total,u64 chunk,const std::function<void(vf::Ctx&,u64,u64)>& fn){ vf::sweep(label.c_str(),total,chunk,fn); }
-static void PAR(const std::string& label,const std::function<void(int,int,vf::Ctx&)>& fn){ vf::parallel(label.c_str(),fn); }
+// cheap per-thread class counters / ratio maxima keyed by the address of the string literal (vf::Ctx::cls/ratio build a std::string
+// per call: too slow inside 2^32 sweeps); flushed into the Ctx after every chunk
+enum { MAXOPS=128 };
+static thread_local std::vector<std::pair<const char*,u64>> t_cls[MAXOPS];
+static thread_local std::vector<std::pair<const char*,double>> t_rt[MAXOPS];
+static inline void lcls(const char* name){ auto& v=t_cls[vf::g_crumb.op->id]; for(auto& p: v) if(p.first==name){ p.second++; return; } v.push_back({name,1}); }
+static inline void lratio(const char* name,double r){ if(!(r==r)) return; auto& v=t_rt[vf::g_crumb.op->id]; for(auto& p: v) if(p.first==name){ if(r>p.second) p.second=r; return; } v.push_back({name,r}); }
+static void flush(vf::Ctx& c){ for(size_t i=0;i<c.st.size()&&i<(size_t)MAXOPS;i++){ for(auto& p: t_cls[i]) c.st[i].classes[p.first]+=p.second; t_cls[i].clear(); for(auto& p: t_rt[i]){ double& m=c.st[i].ratios[p.first]; if(p.second>m) m=p.second; } t_rt[i].clear(); } }
+static void SWEEP(const std::string& label,u64 total,u64 chunk,const std::function<void(vf::Ctx&,u64,u64)>& fn){ vf::sweep(label.c_str(),total,chunk,[&](vf::Ctx& c,u64 lo,u64 hi){ fn(c,lo,hi); flush(c); }); }
+static void PAR(const std::string& label,const std::function<void(int,int,vf::Ctx&)>& fn){ vf::parallel(label.c_str(),[&](int t,int T,vf::Ctx& c){ fn(t,T,c); flush(c); }); }
+// cheap failure path: the witness strings (snprintf) are only built while a class still lacks its 3 witnesses
+#define LFAIL(C,CLS,GOT,WANT) do{ if(!vf::cfg().san_only){ std::string cls_=(CLS); vf::OpStat& s_=(C).cur(); auto it_=s_.viol.find(cls_); \
+	if(it_!=s_.viol.end() && it_->second.wit.size()>=3) it_->second.count++; else (C).fail(cls_,GOT,WANT); } }while(0)
 static inline u64 mixseed(const std::string& label,u64 a){ return vf::cfg().seed*0x9e3779b97f4a7c15ULL ^ vf::hash_str(label.c_str()) ^ (a+1)*0xD6E8FEB86659FD93ULL; }
 template<class T> static inline T stepulp(T x,int j){ typedef typename fp<T>::I I; I o=ord(x)+(I)j; T r=from_ord<T>(o); return isfinite_b(r)? r: x; }
 static const std::vector<float>& finite_lattice(){ static const std::vector<float> L=[]{ std::vector<float> v; for(float x: float_lattice()) if(isfinite_b(x)) v.push_back(x); return v; }(); return L; }
@@ -57,12 +68,12 @@ template<class F> static void k_int(const InW& in,vf::Ctx& c){
 	const int N=F::N; u32 code[4]={0,0,0,0}; i64 val[4]={0,0,0,0};
 	for(int k=0;k<N;k++){ code[k]=(u32)((u64)in.code[k]&fmask<F>(k)); i64 v=(i64)code[k]; int w=F::width(k); if(F::SGN && ((v>>(w-1))&1)) v-=(i64)1<<w; val[k]=v; }
 	u64 w=join<F>(code); u64 got=F::packw(val); u32 gc[4]; split<F>(got,gc);
-	for(int k=0;k<N;k++) if(gc[k]!=code[k]) c.fail(std::string("pack:field-")+COMP[k]+":wrong-code",vf::show(gc[k]),vf::show(code[k]));
-	if(got!=w && totalbits<F>()<64 && (got>>(totalbits<F>()&63))) c.fail("pack:bits-above-the-top-field",vf::show((unsigned long long)got),vf::show((unsigned long long)w));
+	for(int k=0;k<N;k++) if(gc[k]!=code[k]) LFAIL(c,std::string("pack:field-")+COMP[k]+":wrong-code",vf::show(gc[k]),vf::show(code[k]));
+	if(got!=w && totalbits<F>()<64 && (got>>(totalbits<F>()&63))) LFAIL(c,"pack:bits-above-the-top-field",vf::show((unsigned long long)got),vf::show((unsigned long long)w));
 	i64 o[4]={0,0,0,0}; F::unpackw(w,o);
-	for(int k=0;k<N;k++) if(o[k]!=val[k]) c.fail(std::string("unpack:component-")+COMP[k]+":wrong-value",vf::show((long long)o[k]),vf::show((long long)val[k]));
+	for(int k=0;k<N;k++) if(o[k]!=val[k]) LFAIL(c,std::string("unpack:component-")+COMP[k]+":wrong-value",vf::show((long long)o[k]),vf::show((long long)val[k]));
 	// single-field words: explicit layout statement (field k only -> component k only)
-	for(int k=0;k<N;k++){ u32 one[4]={0,0,0,0}; one[k]=code[k]; i64 s[4]={0,0,0,0}; F::unpackw(join<F>(one),s); for(int j=0;j<N;j++) if(j!=k && s[j]!=0) c.fail(std::string("unpack:field-")+COMP[k]+"-only:component-"+COMP[j]+"-nonzero",vf::show((long long)s[j]),"0"); }
+	for(int k=0;k<N;k++){ u32 one[4]={0,0,0,0}; one[k]=code[k]; i64 s[4]={0,0,0,0}; F::unpackw(join<F>(one),s); for(int j=0;j<N;j++) if(j!=k && s[j]!=0) LFAIL(c,std::string("unpack:field-")+COMP[k]+"-only:component-"+COMP[j]+"-nonzero",vf::show((long long)s[j]),"0"); }
 }
 #define DEF_INT(NAME) VF_OP(NAME##_roundtrip, InW, "uuuu"){ k_int<I_##NAME>(in,c); }
 DEF_INT(Int2x8) DEF_INT(Uint2x8) DEF_INT(Int4x8) DEF_INT(Uint4x8) DEF_INT(Int2x16) DEF_INT(Uint2x16) DEF_INT(Int4x16) DEF_INT(Uint4x16)
@@ -112,35 +123,35 @@ template<class F> static void k_half_roundtrip(const InW& in,vf::Ctx& c){
 	u64 w=join<F>(code); float v[4]={0,0,0,0}, v2[4]={0,0,0,0}; F::unpackw(w,v); u64 w2=F::packw(v); F::unpackw(w2,v2); u32 code2[4]; split<F>(w2,code2);
 	for(int k=0;k<N;k++){
 		u32 e=(code[k]>>10)&31, m=code[k]&0x3ff; bool fin=e<31; const char* cc= fin? (e==0? (m? "subnormal-code":"zero-code"):"normal-code"): (m? "nan-code":"inf-code");
-		c.cls(cc);
+		lcls(cc);
 		float want=glm::unpackHalf1x16((glm::uint16)code[k]);      // consistency with the scalar function (itself monitored by C07)
-		if(!same(v[k],want)) c.fail(std::string(COMP[k])+":"+cc+":differs-from-unpackHalf1x16(field)",vf::show(v[k]),vf::show(want));
-		if(fin && (double)v[k]!=half_val(code[k])) c.fail(std::string(COMP[k])+":"+cc+":decode-wrong-value",vf::show(v[k]),vf::show(half_val(code[k])));
-		if(!fin && m==0 && !(isinf_b(v[k]) && signbit_b(v[k])==(bool)(code[k]>>15))) c.fail(std::string(COMP[k])+":inf-code:not-decoded-to-inf",vf::show(v[k]),"inf of the code's sign");
-		if(!fin && m!=0 && !isnan_b(v[k])) c.fail(std::string(COMP[k])+":nan-code:not-decoded-to-nan",vf::show(v[k]),"NaN");
-		if(fin && code2[k]!=code[k]) c.fail(std::string(COMP[k])+":finite:"+cc+":repack-changed-code",vf::show(code2[k]),vf::show(code[k]));
-		if(!same(v2[k],v[k])) c.fail(std::string(COMP[k])+":"+cc+":unpack-pack-unpack-differs",vf::show(v2[k]),vf::show(v[k]));
+		if(!same(v[k],want)) LFAIL(c,std::string(COMP[k])+":"+cc+":differs-from-unpackHalf1x16(field)",vf::show(v[k]),vf::show(want));
+		if(fin && (double)v[k]!=half_val(code[k])) LFAIL(c,std::string(COMP[k])+":"+cc+":decode-wrong-value",vf::show(v[k]),vf::show(half_val(code[k])));
+		if(!fin && m==0 && !(isinf_b(v[k]) && signbit_b(v[k])==(bool)(code[k]>>15))) LFAIL(c,std::string(COMP[k])+":inf-code:not-decoded-to-inf",vf::show(v[k]),"inf of the code's sign");
+		if(!fin && m!=0 && !isnan_b(v[k])) LFAIL(c,std::string(COMP[k])+":nan-code:not-decoded-to-nan",vf::show(v[k]),"NaN");
+		if(fin && code2[k]!=code[k]) LFAIL(c,std::string(COMP[k])+":finite:"+cc+":repack-changed-code",vf::show(code2[k]),vf::show(code[k]));
+		if(!same(v2[k],v[k])) LFAIL(c,std::string(COMP[k])+":"+cc+":unpack-pack-unpack-differs",vf::show(v2[k]),vf::show(v[k]));
 	}
 }
 // pack side: field k == packHalf1x16(component k); finite inputs: in range -> decoded within one mantissa step; out of range -> end of range (max finite or inf), never NaN / wrapped
 template<class F> static void k_half_pack(const InXf& in,vf::Ctx& c){
 	const int N=F::N; float x[4]={0,0,0,0}; for(int k=0;k<N;k++) x[k]=in.x[k];
 	u64 w=F::packw(x); u32 code[4]; split<F>(w,code);
-	if constexpr(N*16<64) if(w>>(N*16)) c.fail("pack:bits-above-the-top-field",vf::show((unsigned long long)w),"zero");
+	if constexpr(N*16<64) if(w>>(N*16)) LFAIL(c,"pack:bits-above-the-top-field",vf::show((unsigned long long)w),"zero");
 	for(int k=0;k<N;k++){
 		u32 want=glm::packHalf1x16(x[k]);
-		if(code[k]!=want) c.fail(std::string(COMP[k])+":field-differs-from-packHalf1x16(component)",vf::show(code[k]),vf::show(want));
+		if(code[k]!=want) LFAIL(c,std::string(COMP[k])+":field-differs-from-packHalf1x16(component)",vf::show(code[k]),vf::show(want));
 		if(!isfinite_b(x[k])) continue;
 		u32 mag=code[k]&0x7fff; bool sgn=code[k]>>15; double ax=std::fabs((double)x[k]);
-		if(ax>65504.0){ c.cls("above-range");
-			if(!(mag==0x7bff||mag==0x7c00)) c.fail(std::string(COMP[k])+":above-range:"+(mag>0x7c00?"nan-code":"not-clamped-to-max-or-inf"),vf::show(code[k]),"0x7bff or 0x7c00 with the input's sign");
-			else if(sgn!=signbit_b(x[k])) c.fail(std::string(COMP[k])+":above-range:sign-wrong",vf::show(code[k]),"sign of the input");
-		} else { c.cls("in-range");
+		if(ax>65504.0){ lcls("above-range");
+			if(!(mag==0x7bff||mag==0x7c00)) LFAIL(c,std::string(COMP[k])+":above-range:"+(mag>0x7c00?"nan-code":"not-clamped-to-max-or-inf"),vf::show(code[k]),"0x7bff or 0x7c00 with the input's sign");
+			else if(sgn!=signbit_b(x[k])) LFAIL(c,std::string(COMP[k])+":above-range:sign-wrong",vf::show(code[k]),"sign of the input");
+		} else { lcls("in-range");
 			int ex; std::frexp(ax,&ex); double step= ax<std::ldexp(1.0,-14)? std::ldexp(1.0,-24): std::ldexp(1.0,ex-1-10);
-			if(mag>0x7c00){ c.fail(std::string(COMP[k])+":in-range:nan-code",vf::show(code[k]),"finite code"); continue; }
+			if(mag>0x7c00){ LFAIL(c,std::string(COMP[k])+":in-range:nan-code",vf::show(code[k]),"finite code"); continue; }
 			double d= mag==0x7c00? INFINITY: half_val(code[k]); double err=std::fabs(d-(double)x[k]);
-			c.ratio("err/mantissa-step",err/step);
-			if(!(err<=step)) c.fail(std::string(COMP[k])+":in-range:decoded-beyond-one-mantissa-step",vf::show(d),vf::show(x[k]));
+			lratio("err/mantissa-step",err/step);
+			if(!(err<=step)) LFAIL(c,std::string(COMP[k])+":in-range:decoded-beyond-one-mantissa-step",vf::show(d),vf::show(x[k]));
 		}
 	}
 }
@@ -194,16 +205,16 @@ VF_OP(F2x11_1x10_roundtrip, InW, "uuuu"){
 	bool higher_nz[3]={ (code[1]|code[2])!=0, code[2]!=0, false };
 	for(int k=0;k<3;k++){
 		int mb=sf_mb(k); u32 e=code[k]>>mb, m=code[k]&((1u<<mb)-1); float g=v[k];
-		const char* cc= e==31? (m? "nan-code":"inf-code"): e==0? (m? "e=0-code":"zero-code"): "normal-code"; c.cls(cc);
+		const char* cc= e==31? (m? "nan-code":"inf-code"): e==0? (m? "e=0-code":"zero-code"): "normal-code"; lcls(cc);
 		const char* ctx= higher_nz[k]? ":higher-fields-nonzero": ":higher-fields-zero";
 		auto how=[&](float y)->std::string{ if(isnan_b(y)) return "decodes-to-nan"; if(isinf_b(y)) return "decodes-to-inf"; if(y==-1.0f) return "decodes-to-minus-one"; if(y==0.0f) return "decodes-to-zero"; return y<0? "decodes-to-negative": "decodes-to-finite-value"; };
-		if(e==31 && m==0){ if(!(isinf_b(g)&&!signbit_b(g))) c.fail(std::string(COMP[k])+":inf-code:"+how(g)+ctx,vf::show(g),"+inf"); }
-		else if(e==31){ if(!isnan_b(g)) c.fail(std::string(COMP[k])+":nan-code:"+how(g)+ctx,vf::show(g),"NaN"); }
-		else if(e==0 && m==0){ if(!(g==0.0f)) c.fail(std::string(COMP[k])+":zero-code:"+(g==std::ldexp(1.0f,-15)? "decodes-to-2^-15": how(g).c_str())+ctx,vf::show(g),"0"); }
-		else if(e==0){ if(!((double)g==sf_val_gl(mb,code[k])||(double)g==sf_val_nd(mb,code[k]))) c.fail(std::string(COMP[k])+":e=0-code:wrong-value",vf::show(g),vf::show(sf_val_nd(mb,code[k]))+" or "+vf::show(sf_val_gl(mb,code[k]))); }
-		else { if((double)g!=sf_val_gl(mb,code[k])) c.fail(std::string(COMP[k])+":normal-code:wrong-value",vf::show(g),vf::show(sf_val_gl(mb,code[k]))); }
-		if(e<31 && code2[k]!=code[k]) c.fail(std::string(COMP[k])+":finite:"+cc+":repack-changed-code",vf::show(code2[k]),vf::show(code[k]));
-		if(!same(v2[k],g)) c.fail(std::string(COMP[k])+":"+cc+":unpack-pack-unpack-differs"+ctx,vf::show(v2[k]),vf::show(g));
+		if(e==31 && m==0){ if(!(isinf_b(g)&&!signbit_b(g))) LFAIL(c,std::string(COMP[k])+":inf-code:"+how(g)+ctx,vf::show(g),"+inf"); }
+		else if(e==31){ if(!isnan_b(g)) LFAIL(c,std::string(COMP[k])+":nan-code:"+how(g)+ctx,vf::show(g),"NaN"); }
+		else if(e==0 && m==0){ if(!(g==0.0f)) LFAIL(c,std::string(COMP[k])+":zero-code:"+(g==std::ldexp(1.0f,-15)? "decodes-to-2^-15": how(g).c_str())+ctx,vf::show(g),"0"); }
+		else if(e==0){ if(!((double)g==sf_val_gl(mb,code[k])||(double)g==sf_val_nd(mb,code[k]))) LFAIL(c,std::string(COMP[k])+":e=0-code:wrong-value",vf::show(g),vf::show(sf_val_nd(mb,code[k]))+" or "+vf::show(sf_val_gl(mb,code[k]))); }
+		else { if((double)g!=sf_val_gl(mb,code[k])) LFAIL(c,std::string(COMP[k])+":normal-code:wrong-value",vf::show(g),vf::show(sf_val_gl(mb,code[k]))); }
+		if(e<31 && code2[k]!=code[k]) LFAIL(c,std::string(COMP[k])+":finite:"+cc+":repack-changed-code",vf::show(code2[k]),vf::show(code[k]));
+		if(!same(v2[k],g)) LFAIL(c,std::string(COMP[k])+":"+cc+":unpack-pack-unpack-differs"+ctx,vf::show(v2[k]),vf::show(g));
 	}
 }
 VF_OP(F2x11_1x10_quantise, InXf, "ffff"){
@@ -212,11 +223,11 @@ VF_OP(F2x11_1x10_quantise, InXf, "ffff"){
 		if(!isfinite_b(in.x[k])) continue;
 		int mb=sf_mb(k); u32 cd=code[k], e=cd>>mb, maxc=(30u<<mb)|((1u<<mb)-1); double xv=(double)in.x[k], mx=sf_maxfinite(mb), r=0;
 		std::string P=std::string(COMP[k])+":";
-		if(xv<0){ c.cls("negative"); if(!(cd<=1)) c.fail(P+"negative:"+(sf_near(mb,cd,-xv,nullptr)? "encodes-the-magnitude":"neither-zero-nor-smallest-code"),vf::show(cd),"0 or 1"); }
-		else if(xv==0){ c.cls("zero"); if(!(cd<=1)) c.fail(P+"zero:nonzero-code",vf::show(cd),"0"); }
-		else if(xv<std::ldexp(1.0,-14)){ c.cls("sub-minimum-normal"); if(!(cd<=1||sf_near(mb,cd,xv,&r))) c.fail(P+"below-2^-14:"+(e==31?"inf-or-nan-code":"exponent-wrapped"),vf::show(cd)+" = "+vf::show(sf_val_gl(mb,cd)),"0, 1 or a code within 2^"+std::to_string(-14-mb)+" of x"); }
-		else if(xv<=mx){ c.cls("in-range"); bool ok=sf_near(mb,cd,xv,&r); c.ratio("err/mantissa-step(truncation<1)",r); if(!ok) c.fail(P+"in-range:"+(e==31?"inf-or-nan-code":"beyond-one-mantissa-step"),vf::show(cd)+(e==31?"":" = "+vf::show(sf_val_gl(mb,cd))),"a finite code within one mantissa step of x"); }
-		else { c.cls("above-max"); if(cd!=maxc) c.fail(P+"above-max:"+(e==31?"inf-or-nan-code":"exponent-wrapped"),vf::show(cd),vf::show(maxc)+" (largest finite code)"); }
+		if(xv<0){ lcls("negative"); if(!(cd<=1)) LFAIL(c,P+"negative:"+(sf_near(mb,cd,-xv,nullptr)? "encodes-the-magnitude":"neither-zero-nor-smallest-code"),vf::show(cd),"0 or 1"); }
+		else if(xv==0){ lcls("zero"); if(!(cd<=1)) LFAIL(c,P+"zero:nonzero-code",vf::show(cd),"0"); }
+		else if(xv<std::ldexp(1.0,-14)){ lcls("sub-minimum-normal"); if(!(cd<=1||sf_near(mb,cd,xv,&r))) LFAIL(c,P+"below-2^-14:"+(e==31?"inf-or-nan-code":"exponent-wrapped"),vf::show(cd)+" = "+vf::show(sf_val_gl(mb,cd)),"0, 1 or a code within 2^"+std::to_string(-14-mb)+" of x"); }
+		else if(xv<=mx){ lcls("in-range"); bool ok=sf_near(mb,cd,xv,&r); lratio("err/mantissa-step(truncation<1)",r); if(!ok) LFAIL(c,P+"in-range:"+(e==31?"inf-or-nan-code":"beyond-one-mantissa-step"),vf::show(cd)+(e==31?"":" = "+vf::show(sf_val_gl(mb,cd))),"a finite code within one mantissa step of x"); }
+		else { lcls("above-max"); if(cd!=maxc) LFAIL(c,P+"above-max:"+(e==31?"inf-or-nan-code":"exponent-wrapped"),vf::show(cd),vf::show(maxc)+" (largest finite code)"); }
 	}
 }
 VF_OP(F2x11_1x10_monotone, InMf, "ff"){
@@ -224,17 +235,17 @@ VF_OP(F2x11_1x10_monotone, InMf, "ff"){
 	for(int k=0;k<3;k++){
 		int mb=sf_mb(k); glm::vec3 xa(0.f), xb(0.f); xa[k]=a; xb[k]=b; u32 ca[4],cb[4]; split<SF3>(glm::packF2x11_1x10(xa),ca); split<SF3>(glm::packF2x11_1x10(xb),cb);
 		const char* reg= a<0? "negative-operand": (double)b>sf_maxfinite(mb)? "above-max-operand": (a!=0 && (double)a<std::ldexp(1.0,-14))? "below-2^-14-operand": "in-range";
-		c.cls(reg);
-		if(ca[k]>cb[k]) c.fail(std::string(COMP[k])+":"+reg+":order-reversed",vf::show(cb[k])+" for the larger input",">= "+vf::show(ca[k]));
+		lcls(reg);
+		if(ca[k]>cb[k]) LFAIL(c,std::string(COMP[k])+":"+reg+":order-reversed",vf::show(cb[k])+" for the larger input",">= "+vf::show(ca[k]));
 	}
 }
 VF_OP(F2x11_1x10_layout, InXf, "ffff"){
 	float x[3]; for(int k=0;k<3;k++) x[k]= (isfinite_b(in.x[k])&&in.x[k]>=0)? in.x[k]: 0.5f;
 	u32 wall=glm::packF2x11_1x10(glm::vec3(x[0],x[1],x[2])), acc=0;
 	for(int k=0;k<3;k++){ glm::vec3 s(0.f); s[k]=x[k]; u32 wk=glm::packF2x11_1x10(s), mk=(u32)(fmask<SF3>(k)<<foff<SF3>(k)); acc|=wk;
-		if(wk&~mk) c.fail(std::string(COMP[k])+":single-component:bits-outside-its-field",vf::show(wk),"only bits of mask "+vf::show(mk));
-		if(x[k]>=std::ldexp(1.0f,-14) && x[k]<65024.f && (wk&mk)==0) c.fail(std::string(COMP[k])+":single-component:its-field-empty",vf::show(wk),"non-zero bits in mask "+vf::show(mk)); }
-	if(acc!=wall) c.fail("pack:word-differs-from-or-of-single-component-words",vf::show(wall),vf::show(acc));
+		if(wk&~mk) LFAIL(c,std::string(COMP[k])+":single-component:bits-outside-its-field",vf::show(wk),"only bits of mask "+vf::show(mk));
+		if(x[k]>=std::ldexp(1.0f,-14) && x[k]<65024.f && (wk&mk)==0) LFAIL(c,std::string(COMP[k])+":single-component:its-field-empty",vf::show(wk),"non-zero bits in mask "+vf::show(mk)); }
+	if(acc!=wall) LFAIL(c,"pack:word-differs-from-or-of-single-component-words",vf::show(wall),vf::show(acc));
 }
 
 static float gen_sf(vf::Rng& r,int k){
@@ -260,10 +271,10 @@ VF_OP(F3x9_E1x5_roundtrip, InW, "uuuu"){
 	u32 code[4]; for(int k=0;k<4;k++) code[k]=in.code[k]&(u32)fmask<SE4>(k);
 	u32 w=(u32)join<SE4>(code); glm::vec3 v=glm::unpackF3x9_E1x5(w); u32 w2=glm::packF3x9_E1x5(v); glm::vec3 v2=glm::unpackF3x9_E1x5(w2);
 	u32 mm=std::max(code[0],std::max(code[1],code[2])), e=code[3]; bool canon= e==0 || mm>=256; double vmax=std::ldexp((double)mm,(int)e-24);
-	const char* cc= canon? (vmax>32768.0? "canonical:value>32768": "canonical"): "non-canonical"; c.cls(cc);
-	for(int k=0;k<3;k++){ double want=std::ldexp((double)code[k],(int)e-24); if((double)v[k]!=want) c.fail(std::string(COMP[k])+":decode:differs-from-m*2^(e-24)",vf::show(v[k]),vf::show(want)); }
-	if(canon && w2!=w){ u32 c2[4]; split<SE4>(w2,c2); c.fail(std::string(cc)+":repack-changed-word"+(c2[3]!=e?"(exponent)":"(mantissa)"),vf::show(w2),vf::show(w)); }
-	for(int k=0;k<3;k++) if(!same(v2[k],v[k])) c.fail(std::string(COMP[k])+":"+(vmax>32768.0? "value>32768": "value<=32768")+":unpack-pack-unpack-differs",vf::show(v2[k]),vf::show(v[k]));
+	const char* cc= canon? (vmax>32768.0? "canonical:value>32768": "canonical"): "non-canonical"; lcls(cc);
+	for(int k=0;k<3;k++){ double want=std::ldexp((double)code[k],(int)e-24); if((double)v[k]!=want) LFAIL(c,std::string(COMP[k])+":decode:differs-from-m*2^(e-24)",vf::show(v[k]),vf::show(want)); }
+	if(canon && w2!=w){ u32 c2[4]; split<SE4>(w2,c2); LFAIL(c,std::string(cc)+":repack-changed-word"+(c2[3]!=e?"(exponent)":"(mantissa)"),vf::show(w2),vf::show(w)); }
+	for(int k=0;k<3;k++) if(!same(v2[k],v[k])) LFAIL(c,std::string(COMP[k])+":"+(vmax>32768.0? "value>32768": "value<=32768")+":unpack-pack-unpack-differs",vf::show(v2[k]),vf::show(v[k]));
 }
 // exponent the format assigns to a maximum component mc (0 <= mc <= 65408): max(-16, floor(log2 mc)) + 16
 static inline int rgb9e5_exp(double mc){ if(!(mc>0)) return 0; int ex; std::frexp(mc,&ex); int fl=ex-1; return std::max(-16,fl)+16; }
@@ -274,11 +285,12 @@ VF_OP(F3x9_E1x5_quantise, InXf, "ffff"){
 	int ec=rgb9e5_exp(mc); double step=std::ldexp(1.0,ec-24);        // one mantissa step at the exponent of the largest component
 	for(int k=0;k<3;k++){
 		double x=(double)in.x[k], d=std::ldexp((double)code[k],(int)code[3]-24), err=std::fabs(d-cl[k]);
-		const char* reg= x<0? "negative": x>RGB9E5_MAX? "above-65408": x>32768.0? "in-range:32768<x<=65408": "in-range"; c.cls(reg);
-		if(err<=step*(1+1e-3)) c.ratio("err/mantissa-step(passing)",err/step);
-		if(!(err<=step*(1+1e-3))){
+		const char* reg= x<0? "negative": x>RGB9E5_MAX? "above-65408": x>32768.0? "in-range:32768<x<=65408": "in-range"; lcls(reg);
+		const double tol=1+std::ldexp(1.0,-10);       // float rounding of c/2^j+0.5f is < 2^-14 step; 2^-10 is a safety margin
+		if(mc<=32768.0) lratio("err/mantissa-step",err/step);
+		if(!(err<=step*tol)){
 			std::string how= (x>32768.0 && d==32768.0)? "decodes-to-32768": x<0? "not-clamped-to-zero": (mc>32768.0 && cl[k]<=32768.0)? "beyond-one-mantissa-step(largest-component>32768)": "beyond-one-mantissa-step";
-			c.fail(std::string(COMP[k])+":"+reg+":"+how,vf::show(d),vf::show(cl[k])+" +- "+vf::show(step));
+			LFAIL(c,std::string(COMP[k])+":"+reg+":"+how,vf::show(d),vf::show(cl[k])+" +- "+vf::show(step));
 		}
 	}
 }
@@ -286,14 +298,14 @@ VF_OP(F3x9_E1x5_monotone, InMf, "ff"){
 	if(!isfinite_b(in.a)||!isfinite_b(in.b)) return; float a=std::min(in.a,in.b), b=std::max(in.a,in.b);
 	for(int k=0;k<3;k++){ glm::vec3 xa(0.f), xb(0.f); xa[k]=a; xb[k]=b; u32 ca[4],cb[4]; split<SE4>(glm::packF3x9_E1x5(xa),ca); split<SE4>(glm::packF3x9_E1x5(xb),cb);
 		double da=std::ldexp((double)ca[k],(int)ca[3]-24), db=std::ldexp((double)cb[k],(int)cb[3]-24);
-		if(da>db) c.fail(std::string(COMP[k])+":"+(b>32768.f?"operand>32768":a<0?"negative-operand":"in-range")+":order-reversed",vf::show(db)+" for the larger input",">= "+vf::show(da)); }
+		if(da>db) LFAIL(c,std::string(COMP[k])+":"+(b>32768.f?"operand>32768":a<0?"negative-operand":"in-range")+":order-reversed",vf::show(db)+" for the larger input",">= "+vf::show(da)); }
 }
 VF_OP(F3x9_E1x5_layout, InXf, "ffff"){
 	for(int k=0;k<3;k++){ float xv= (isfinite_b(in.x[k])&&in.x[k]>0)? std::min(in.x[k],32768.f): 0.5f; glm::vec3 s(0.f); s[k]=xv; u32 w=glm::packF3x9_E1x5(s); u32 code[4]; split<SE4>(w,code);
-		for(int j=0;j<3;j++) if(j!=k && code[j]!=0) c.fail(std::string(COMP[k])+":single-component:mantissa-field-"+COMP[j]+"-nonzero",vf::show(w),"only mantissa field "+std::string(COMP[k])+" and the exponent field");
-		if(xv>=std::ldexp(1.0f,-24) && code[k]==0) c.fail(std::string(COMP[k])+":single-component:its-mantissa-field-empty",vf::show(w),"non-zero mantissa "+std::string(COMP[k]));
+		for(int j=0;j<3;j++) if(j!=k && code[j]!=0) LFAIL(c,std::string(COMP[k])+":single-component:mantissa-field-"+COMP[j]+"-nonzero",vf::show(w),"only mantissa field "+std::string(COMP[k])+" and the exponent field");
+		if(xv>=std::ldexp(1.0f,-24) && code[k]==0) LFAIL(c,std::string(COMP[k])+":single-component:its-mantissa-field-empty",vf::show(w),"non-zero mantissa "+std::string(COMP[k]));
 		// unpack side
-		u32 one[4]={0,0,0,code[3]}; one[k]=code[k]; glm::vec3 o=glm::unpackF3x9_E1x5((u32)join<SE4>(one)); for(int j=0;j<3;j++) if(j!=k && o[j]!=0.f) c.fail(std::string("unpack:mantissa-")+COMP[k]+"-only:component-"+COMP[j]+"-nonzero",vf::show(o[j]),"0"); }
+		u32 one[4]={0,0,0,code[3]}; one[k]=code[k]; glm::vec3 o=glm::unpackF3x9_E1x5((u32)join<SE4>(one)); for(int j=0;j<3;j++) if(j!=k && o[j]!=0.f) LFAIL(c,std::string("unpack:mantissa-")+COMP[k]+"-only:component-"+COMP[j]+"-nonzero",vf::show(o[j]),"0"); }
 }
 static float gen_se(vf::Rng& r){
 	const std::vector<float>& L=finite_lattice(); float x;
@@ -317,19 +329,20 @@ template<class T> static void k_rgbm(const InC<T>& in,vf::Ctx& c){
 	glm::vec<3,T,glm::defaultp> rgb(in.x[0],in.x[1],in.x[2]); for(int k=0;k<3;k++) if(!isfinite_b(in.x[k])||in.x[k]<0) return;
 	glm::vec<4,T,glm::defaultp> p=glm::packRGBM(rgb); glm::vec<3,T,glm::defaultp> back=glm::unpackRGBM(p);
 	const long double u=uround<T>(); T mx=std::max(in.x[0],std::max(in.x[1],in.x[2]));
-	c.cls(mx>(T)6? "max>6(M saturates)": "max<=6");
+	lcls(mx>(T)6? "max>6(M saturates)": "max<=6");
 	for(int k=0;k<3;k++){ long double err=fabsl((long double)back[k]-(long double)in.x[k]), bound=9*u*fabsl((long double)in.x[k]);   // 5 roundings (1/6 constant, *, /, *, *) + 4
-		if(bound>0) c.ratio("err/bound(9u)",(double)(err/bound));
-		if(!(err<=bound)) c.fail(std::string(COMP[k])+":unpack(pack(c))-differs-from-c-beyond-rounding",vf::show(back[k]),vf::show(in.x[k])); }
+		if(bound>0) lratio("err/bound(9u)",(double)(err/bound));
+		if(!(err<=bound)) LFAIL(c,std::string(COMP[k])+":unpack(pack(c))-differs-from-c-beyond-rounding",vf::show(back[k]),vf::show(in.x[k])); }
 	long double m255=(long double)p.w*255.0L, near=std::round((double)m255);
-	if(!(fabsl(m255-near)<=4*u*255 && near>=1 && near<=255)) c.fail("M:not-a-multiple-of-1/255-in[1/255,1]",vf::show(p.w),"k/255, k=1..255");
-	if(mx<=(T)6) for(int k=0;k<3;k++) if(!((long double)p[k]<=1+8*u)) c.fail(std::string(COMP[k])+":max<=6:stored-colour-above-one",vf::show(p[k]),"<= 1");
+	if(!(fabsl(m255-near)<=4*u*255 && near>=1 && near<=255)) LFAIL(c,"M:not-a-multiple-of-1/255-in[1/255,1]",vf::show(p.w),"k/255, k=1..255");
+	if(mx<=(T)6) for(int k=0;k<3;k++) if(!((long double)p[k]<=1+8*u)) LFAIL(c,std::string(COMP[k])+":max<=6:stored-colour-above-one",vf::show(p[k]),"<= 1");
 }
 VF_OP(RGBM_float, InC<float>, "ffff"){ k_rgbm<float>(in,c); }
 VF_OP(RGBM_double, InC<double>, "dddd"){ k_rgbm<double>(in,c); }
 
 // ================================================================ workload
 static void workload(){
+	if(vf::registry().size()>=(size_t)MAXOPS){ fprintf(stderr,"MAXOPS too small\n"); exit(2); }
 	const bool th=vf::thorough(); const u64 seed=vf::cfg().seed;
 #define DI(NAME) drive_words<I_##NAME>(#NAME,NAME##_roundtrip);
 	DI(Int2x8) DI(Uint2x8) DI(Int4x8) DI(Uint4x8) DI(Int2x16) DI(Uint2x16) DI(Int4x16) DI(Uint4x16) DI(Int2x32) DI(Uint2x32) DI(I3x10_1x2) DI(U3x10_1x2) DI(Double2x32)
